@@ -33,6 +33,8 @@ func runC15(p *core.Program, r *core.Report) {
 	chainRules(p, r, "R7", "C03", []string{"C03.R4"}, "an import binding is made once and never changed")
 	// R8: a reference given as text reaches the naming system whenever it parses as one (C03.R16)
 	chainRules(p, r, "R8", "C03", []string{"C03.R16"}, "text is written as it is only when it does not parse as a reference")
+	// round 8: the reference a path and a name are wrapped in answers exactly that path
+	chainRules(p, r, "R9", "C03", []string{"C03.R17"}, "Ref(path, name) stands for exactly that path and name")
 }
 
 // depthCounterRule checks the bracket splitter found in fn.
